@@ -10,6 +10,10 @@ compare(real, after, obs)        -> None if the real object is in specification 
                                     still right): counted and reported as a note, never as a violation
 state_of(vars)                   -> python projection of a dot node (dict var -> TLA+ value text)
 
+nondet=True: the specification may offer SEVERAL successors for one action label in one state (e.g. the two serial orders of two
+racing calls).  The action is applied once; the real object must be in ONE of those successor states (else DRIFT), and the
+exploration goes on from the one it is in.  Successor states the code never realises are counted, not explored.
+
 States are reached by following edges as far as possible (DFS over unreplayed edges); a state whose outgoing edges are not all
 replayed yet is re-entered by building a fresh real object along the BFS-tree path from the initial state (a "teleport").  A
 mismatch is recorded, and exploration does not continue from a specification state the code did not reach."""
@@ -27,7 +31,11 @@ def _close(real):
             pass
 
 
-def replay(v, module, cfg, make_real, apply, compare, state_of, prop, label, describe=str, max_edges=None, max_failures=40):
+class _Unreached(Exception):
+    pass
+
+
+def replay(v, module, cfg, make_real, apply, compare, state_of, prop, label, describe=str, max_edges=None, max_failures=40, nondet=False):
     work = common.workdir()
     dump = os.path.join(work, '%s_graph_%s' % (label, cfg.replace('.cfg', '')))
     r = tlc.run(module, cfg, workers=1, dump=dump, timeout=1500, name=label + 'dump')
@@ -45,14 +53,25 @@ def replay(v, module, cfg, make_real, apply, compare, state_of, prop, label, des
     for (a, b, lab) in edges:
         if a == b:
             continue
-        out.setdefault(a, []).append((b, lab))
+        if nondet:
+            # one entry per (state, label): b is the LIST of alternative successors
+            for ent in out.setdefault(a, []):
+                if ent[1] == lab:
+                    if b not in ent[0]:
+                        ent[0].append(b)
+                    break
+            else:
+                out[a].append(([b], lab))
+        else:
+            out.setdefault(a, []).append((b, lab))
     parent = {inits[0]: None}
     order = [inits[0]]
     for a in order:
-        for (b, lab) in out.get(a, []):
-            if b not in parent:
-                parent[b] = (a, lab)
-                order.append(b)
+        for (bs, lab) in out.get(a, []):
+            for b in (bs if nondet else [bs]):
+                if b not in parent:
+                    parent[b] = (a, lab)
+                    order.append(b)
 
     def path_to(n):
         p = []
@@ -66,12 +85,16 @@ def replay(v, module, cfg, make_real, apply, compare, state_of, prop, label, des
         real = make_real()
         for (a, b, lab) in path_to(n):
             name, args = tlc.parse_action_label(lab)
-            apply(real, name, args, S(a))
+            obs = apply(real, name, args, S(a))
+            if nondet and compare(real, S(b), obs) is not None:
+                _close(real)
+                raise _Unreached()      # the code took another of the alternatives the specification allows here
         return real
 
     done = set()
     total = sum(len(x) for x in out.values())
-    replayed = teleports = failures = drift = 0
+    replayed = teleports = failures = drift = unrealised = 0
+    alternatives_taken = {}
     drift_notes = []
     bad_states = set()
     stack_states = list(reversed(order))
@@ -93,11 +116,17 @@ def replay(v, module, cfg, make_real, apply, compare, state_of, prop, label, des
                 stack_states.pop()
             if cur is None:
                 break
-            _close(real)
+            if real is not None:
+                _close(real)
             try:
                 real = build(cur)
             except common.Machinery:
                 raise
+            except _Unreached:
+                bad_states.add(cur)
+                unrealised += 1
+                real = None
+                continue
             except Exception:
                 bad_states.add(cur)     # the path to this state already failed elsewhere
                 continue
@@ -108,11 +137,27 @@ def replay(v, module, cfg, make_real, apply, compare, state_of, prop, label, des
         name, args = tlc.parse_action_label(lab)
         try:
             obs = apply(real, name, args, S(cur))
-            bad = compare(real, S(b), obs)
+            if nondet:
+                alts = b
+                res = [(x, compare(real, S(x), obs)) for x in alts]
+                hit = [x for x, r in res if r is None]
+                if hit:
+                    b, bad = hit[0], None
+                    if len(alts) > 1:
+                        alternatives_taken[alts.index(b)] = alternatives_taken.get(alts.index(b), 0) + 1
+                else:
+                    viol = [r for x, r in res if r[0] != 'DRIFT']
+                    b, bad = alts[0], (viol[0] if viol else res[0][1])
+                    if not viol and len(alts) > 1:
+                        bad = ('DRIFT', 'none of the %d outcomes the specification allows: %s' % (len(alts), bad[1]))
+            else:
+                bad = compare(real, S(b), obs)
         except common.Machinery:
             raise
         except Exception as ex:     # the library raised where the specification defines a step
             bad = ('%s.%s_step_raised' % (prop, label), '%s: %s' % (type(ex).__name__, ex))
+            if nondet:
+                b = b[0]
         replayed += 1
         if bad and bad[0] == 'DRIFT':
             # the implementation left the specification but has not violated the property: keep driving it along the
@@ -130,12 +175,16 @@ def replay(v, module, cfg, make_real, apply, compare, state_of, prop, label, des
         cur = b
         if max_edges and replayed >= max_edges:
             break
-    _close(real)
+    if real is not None:
+        _close(real)
     v.add('%s_transitions_replayed' % label, replayed)
     v.add('%s_transitions_total' % label, total)
     v.add('%s_states' % label, len(nodes))
     v.add('%s_teleports' % label, teleports)
     v.add('%s_transitions_matching_spec_state' % label, replayed - drift - failures)
+    if nondet:
+        v.add('%s_states_never_realised_by_the_code' % label, unrealised)
+        v.coverage['%s_alternative_taken' % label] = {str(k): n for k, n in sorted(alternatives_taken.items())}
     if drift:
         v.notes.append('DRIFT (%s/%s): on %d of %d replayed transitions the real code was not in the specification state although its '
                        'observable history satisfies the property; the specification no longer describes the implementation: %s' % (
